@@ -51,6 +51,29 @@ NEEDS_J = {
  "C20": ("TlsConnectionInfoReciever::recv takes the shared state by value (mem::take leaves Empty) before it awaits the receiver", "a request future of the per-connection stack polled before the handshake has delivered its info and then dropped: the connection is treated as plaintext from then on, any Host is forwarded unmarked"),
 }
 
+NEEDS_K = {
+ "C01": ("PoolInner::push looks the idle list up and applies max_idle_per_host BEFORE it walks the waiting requests, returning early when the connection would not fit", "max_idle_per_host = 0, HTTP/2, a second request that waits for the first one's attempt: push returns before serving the waiter, the second request hangs although nothing was cancelled or broken"),
+ "C02": ("HttpConnection::is_open returns !is_closed() instead of is_ready()", "the hand-back task of a released HTTP/1.1 connection is dropped before it finished (its runtime shuts down) while the response body is still unread: WhenReady's destructor sees `open`, the busy connection re-enters the pool and the next request is sent on it"),
+ "C03": ("both pool.lock() calls of Checkout's PinnedDrop become pool.try_lock() ('never block in Drop')", "TWO THREADS: the owner of an HTTP/2 attempt is cancelled (or its background attempt fails) while another thread is inside a pool critical section: cancel_connection is skipped, the marker stays for ever, waiters and later requests never proceed"),
+ "C04": ("the hand-back of a popped but never delivered HTTP/1.1 connection in Checkout's PinnedDrop uses try_lock()", "TWO THREADS: a request that took the idle connection is dropped unpolled while another thread holds the pool mutex: the healthy connection is destroyed and the next request dials"),
+ "C05": ("Waiting::close() drains the closed mailbox with try_recv and hands an unread connection to a new Pooled::release(), which pushes it without the is_open check", "TWO THREADS + PEER: a connection is delivered to R1's mailbox while R1's poll is between its waiter poll and waiter.close(), the peer closes it, R1's dial completes in the same poll: the dead connection is pushed on to waiting R2"),
+ "C06": ("UriKey hashes the authority only (Eq still compares the scheme) and TokenMap::insert memoises (hash, token) of the last lookup, returning the token on equal hash without comparing keys", "two origins that differ only in scheme, looked up back to back: they share token, idle list, waiters and marker"),
+ "C07": ("the shutdown channel becomes an AtomicBool + futures AtomicWaker (one waker slot) shared by all connection drivers", ">= 2 connections open at the signal, a quiescent one that is not the most recently polled: it is never woken, never told to shut down, stays open"),
+ "C08": ("ReadVersion::poll fixes the slice new bytes are compared against once per poll instead of advancing it after each read", "an HTTP/2 preface whose first 24 bytes arrive in >= 2 reads that both complete within ONE poll (no Pending in between): served as HTTP/1"),
+ "C09": ("TlsAcceptor::poll_accept polls the handshake once before handing the stream on and discards the result", "a listener with a backlog: bad first bytes already buffered when the connection is accepted; the handshake fails on that first poll, info() panics inside the accept loop, the server ends"),
+ "C10": ("TcpConnecting::connect gets a fast path for exactly one candidate that bypasses EyeballSet (and with it the overall deadline)", "exactly one candidate that neither succeeds nor fails, happy_eyeballs_timeout finite, connect_timeout None or larger"),
+ "C11": ("process_all refactored into start_next()/start_up_to(target): after a failure it only tops up to the initial concurrency", ">= c+2 candidates, a stagger expiry while the first c attempts are pending, then a failure: the next candidate waits a full stagger delay instead of starting at once"),
+ "C12": ("Builder::with_transport rebuilds the builder with tls: None ('a custom transport may already be TLS-wrapped')", "a client built with with_tls()/with_default_tls() BEFORE with_transport(): https and wss requests go out in plaintext"),
+ "C13": ("SetHostHeaderLayer moves to the top of the stack in Builder::build_service (above redirect following and the pool)", "a followed cross-authority redirect (hop 2 carries hop 1's Host), or an HTTP/2-version request carried on an HTTP/1.1 connection (no Host at all)"),
+ "C14": ("Pool::checkout gets a fast path: TokenMap::get + pop under one lock acquisition, waiter registration under a second", "TWO THREADS: a connection is released between the two acquisitions: it is parked idle, the new request dials and is never served by it"),
+ "C15": ("TokenMap::insert split into get (read lock, outside the pool lock) and an unconditional allocate", "TWO THREADS: two first-ever check-outs for ONE origin overlap between lookup and allocation: two tokens, two idle lists, 2 x max_idle_per_host idle connections"),
+ "C16": ("EyeballSet's queue becomes a Vec; candidates beyond the initial batch are taken with pop() from the back", ">= concurrency+2 addresses whose leading attempts fail: the rest is started in reverse sorted order"),
+ "C17": ("TcpTransport::call gets a fast path for IP-literal hosts; a bracketed host is parsed with .parse::<Ipv6Addr>().expect(..)", "a bracketed host that is legal for http::Uri but not an IPv6 address: [fe80::1%25eth0], [v1.fe], []: panic in the caller's task"),
+ "C18": ("server Stream::poll_shutdown remembers that shutdown was STARTED and answers Ok on every later poll", "an inner transport whose shutdown takes more than one poll (Pending or Err first): the retry reports Ok without touching the transport"),
+ "C19": ("TimeoutFuture builds no timer for a zero duration ('zero means no timeout') and maps the missing timer to Pending", "a configured timeout of exactly Duration::ZERO and an inner service that is not ready at once: no deadline at all"),
+ "C20": ("the SNI layer strips the port with a helper that cuts at the LAST colon instead of parsing an authority", "a bracketed IPv6 literal as host and/or server name: [2001:db8::2] is accepted for [2001:db8::1], [::1]:8443 is rejected for [::1]"),
+}
+
 NEEDS_H = {}
 src = open('/verif/tools/keep_seeds.py').read()
 m = re.search(r'NEEDS_H = \{(.*?)\n\}', src, re.S)
@@ -58,7 +81,7 @@ for mm in re.finditer(r'"(C\d\d)": \("([^"]*)", "((?:[^"\\]|\\.)*)", "((?:[^"\\]
     NEEDS_H[mm.group(1)] = (mm.group(3), mm.group(4))
 
 root, suffix, confirm_glob, asis_log, final_log = sys.argv[1:6]
-NEEDS = NEEDS_I if suffix == 'i' else NEEDS_J if suffix == 'j' else NEEDS_H
+NEEDS = NEEDS_I if suffix == 'i' else NEEDS_J if suffix == 'j' else NEEDS_K if suffix == 'k' else NEEDS_H
 
 confirm = {}
 for f in glob.glob(confirm_glob):
@@ -103,8 +126,8 @@ for pid in sorted(NEEDS):
     a, f_ = asis.get(pid), final.get(pid, dict(caught=[], machinery=[], silent=[]))
     meta = {
         "seed": f"{pid.lower()}{suffix}", "breaks_property": pid, "change": NEEDS[pid][0], "needs_to_manifest": NEEDS[pid][1],
-        "written_by": "independent sub-agent given only the property text and a scratch worktree" if suffix in ('i', 'j') else "re-created by a sub-agent from the one-line description of the round-8 change (the original patch and demonstration were lost with the scratch directory when the session was interrupted)",
-        "base_commit": ("1ad2fed" if suffix == 'j' else "ce334d6") + " (patch.diff); patch_on_head.diff, where present, is the same change rebased onto the later hook / fix commits",
+        "written_by": "independent sub-agent given only the property text and a scratch worktree" if suffix in ('i', 'j', 'k') else "re-created by a sub-agent from the one-line description of the round-8 change (the original patch and demonstration were lost with the scratch directory when the session was interrupted)",
+        "base_commit": ("c7f0ca6" if suffix == 'k' else "1ad2fed" if suffix == 'j' else "ce334d6") + " (patch.diff); patch_on_head.diff, where present, is the same change rebased onto the later hook / fix commits",
         "confirmed_in_scratch_worktree": {
             "command": f"tools/confirm_seed9.sh {pid} {c['features']}".strip() + f"  (SEED_ROOT={root}: pinned suite with the change, then demo/seed_demo.rs with and without it)",
             "suite_with_change": c['suite'], "demo_with_change": c['demo_with'], "demo_without_change": c['demo_without'],
